@@ -1117,6 +1117,7 @@ int accept4(int fd, sockaddr* a, socklen_t* l, int flags)
   SIM_REAL(int, accept4, int, sockaddr*, socklen_t*, int);
   if (!isfd(fd)) return real(fd, a, l, flags);
   point(0x903);
+  uint64_t until = 0; // computed once: spurious wake-ups must not extend SO_RCVTIMEO
   for (;;)
   {
     Fd* L = F(fd);
@@ -1146,7 +1147,7 @@ int accept4(int fd, sockaddr* a, socklen_t* l, int flags)
       return nfd;
     }
     if (L->nonblock) { errno = EAGAIN; return -1; }
-    uint64_t until = L->rcvtimeo ? g_now + L->rcvtimeo : UINT64_MAX;
+    if (!until) until = L->rcvtimeo ? g_now + L->rcvtimeo : UINT64_MAX;
     if (!wait_fd(until, 0x913)) { errno = EAGAIN; return -1; }
   }
 }
